@@ -51,11 +51,26 @@ CHILD = textwrap.dedent('''
     S.os = OS()
     pkg = %(pkg)r
     count = [0]
+    down_at = fail_at[1] if isinstance(fail_at, (list, tuple)) and fail_at[0] == 'down' else None
+    src_at = fail_at[1] if isinstance(fail_at, (list, tuple)) and fail_at[0] == 'src' else None
     def up(rows):
         for r in rows:
             if fail_at is not None and count[0] == fail_at:
                 raise RuntimeError('injected')
             count[0] += 1
+            yield r
+    dcount = [0]
+    def down(rows):
+        # a step placed after the checkpoint, failing while rows are still flowing through it
+        for r in rows:
+            if down_at is not None and dcount[0] == down_at:
+                raise RuntimeError('injected downstream')
+            dcount[0] += 1
+            yield r
+    def failing_source(rows):
+        for i, r in enumerate(rows):
+            if src_at is not None and i == src_at:
+                raise RuntimeError('injected in the source')
             yield r
         if fail_at is not None and fail_at == -1 - 0 and False:
             raise RuntimeError('injected')
@@ -71,8 +86,8 @@ CHILD = textwrap.dedent('''
         with contextlib.redirect_stdout(io.StringIO()):
             srcs = []
             for i, rows in enumerate(pkg):
-                srcs.append(rows if rows else [])
-            flow = Flow(*[s for s in srcs if True], up, tail, checkpoint('c', checkpoint_path=%(dir)r)) if pkg else Flow(up, tail, checkpoint('c', checkpoint_path=%(dir)r))
+                srcs.append((failing_source(rows) if i == 0 and src_at is not None else rows) if rows else [])
+            flow = Flow(*[s for s in srcs if True], up, tail, checkpoint('c', checkpoint_path=%(dir)r), down) if pkg else Flow(up, tail, checkpoint('c', checkpoint_path=%(dir)r))
             res = flow.results()[0]
         print(json.dumps({'ops': ops, 'res': res}))
     except Exception as e:
@@ -101,6 +116,14 @@ def gen_cases(rng, tier):
         pkg = [[{'a': 10 * i + j, 's': 'x%d' % j} for j in range(n)] for i, n in enumerate(sh)]
         # iterable sources with zero rows give a resource without fields; keep them (empty resources are in the property)
         cases.append({'kind': 'crash', 'pkg': pkg, 'shape': sh})
+    # a source that fails before, at and after the end of the 100-row inference sample, and steps placed after the
+    # checkpoint failing while the checkpoint is being written (no kill enumeration for these larger packages)
+    for sh in ([[130]] if tier != 'thorough' else [[130], [101, 3], [250]]):
+        pkg = [[{'a': 10 * i + j, 's': 'x%d' % j} for j in range(n)] for i, n in enumerate(sh)]
+        n0 = sh[0]
+        cases.append({'kind': 'faults', 'pkg': pkg, 'shape': sh,
+                      'points': [['src', k] for k in sorted(set([0, 50, 99, 100, 101, n0 - 10, n0 - 1]))] +
+                                [['down', k] for k in (0, 7, n0 - 1)]})
     return cases
 
 
@@ -138,12 +161,12 @@ def run_impl(case):
                 'rerun': (again or {}).get('res'), 'rerun_error': (again or {}).get('error', None if again else err2),
                 'rerun_ops': len((again or {}).get('ops', []))}
     with ThreadPoolExecutor(max_workers=12) as ex:
-        out['kills'] = list(ex.map(one_kill, range(len(ops))))
+        out['kills'] = list(ex.map(one_kill, range(len(ops)))) if case['kind'] == 'crash' else []
 
     nrows = sum(len(r) for r in pkg)
 
     def one_fail(fa):
-        d = os.path.join(base, 'f%s' % fa)
+        d = os.path.join(base, 'f%s' % (fa if not isinstance(fa, list) else '_'.join(map(str, fa))))
         rc, o, err = child(pkg, d, fail_at=fa)
         f = os.path.join(d, 'c', 'stream.ndjson')
         exists = os.path.exists(f)
@@ -151,7 +174,12 @@ def run_impl(case):
         return {'at': fa, 'raised': bool(o and 'error' in o), 'final_exists': exists, 'rerun': (again or {}).get('res'),
                 'rerun_error': (again or {}).get('error')}
     with ThreadPoolExecutor(max_workers=12) as ex:
-        out['fails'] = list(ex.map(one_fail, list(range(nrows)) + ['end']))
+        if case['kind'] == 'crash':
+            # steps before the checkpoint at every row and at exhaustion; a step after it at every row
+            points = list(range(nrows)) + ['end'] + [['down', k] for k in range(nrows)]
+        else:
+            points = case['points']
+        out['fails'] = list(ex.map(one_fail, points))
     shutil.rmtree(base, ignore_errors=True)
     return out
 
